@@ -188,8 +188,9 @@ type sess struct {
 	// touched by Reset/Logout (write) and by a delivery until it returns (read): a Reset or Logout
 	// that is not ordered after the delivery is a data race the detector can see (engine R), and an
 	// overlap the backend records itself (engine X)
-	epoch  int
-	inData int
+	epoch      int
+	inData     int
+	panicReset bool // the next Reset panics (armed by a sender "okpanicreset...")
 }
 
 func errStr(err error) string {
@@ -240,6 +241,8 @@ func (s *sess) Mail(from string, opts *smtp.MailOptions) (err error) {
 	}
 	if err = decide(from); err == nil {
 		s.from = from
+		// "okpanicreset...": the next Reset of this session panics (once)
+		s.panicReset = strings.HasPrefix(from, "okpanicreset")
 	}
 	return err
 }
@@ -277,6 +280,10 @@ func (s *sess) Reset() {
 	s.b.add(&Event{Sess: s.id, Kind: "Reset", Ended: true})
 	s.from = ""
 	s.rcpts = nil
+	if s.panicReset {
+		s.panicReset = false
+		panic("backend panic in Reset")
+	}
 }
 
 func (s *sess) Logout() error {
